@@ -6,6 +6,7 @@ import (
 	"os"
 	"path/filepath"
 	"runtime"
+	"runtime/pprof"
 	"strconv"
 	"strings"
 	"time"
@@ -130,7 +131,13 @@ func cmdRun(args []string) int {
 	replace := fs.String("replace", "", "repoFile=localFile,... (overlay replacement, mutation experiments)")
 	replay := fs.Bool("replay", false, "replay violations natively")
 	maxpaths := fs.Int("maxpaths", 0, "")
+	cpuprof := fs.String("cpuprofile", "", "")
 	fs.Parse(args)
+	if *cpuprof != "" {
+		f, _ := os.Create(*cpuprof)
+		pprof.StartCPUProfile(f)
+		defer pprof.StopCPUProfile()
+	}
 	verbose = *cf.v
 	in := &Instance{Property: "ADHOC", Name: "run", Entry: *entry, Params: map[string]int64{}, Logic: *logic, Unwind: *unwind, TimeoutS: *timeout, MaxPaths: *maxpaths}
 	for _, kv := range strings.Split(*params, ",") {
